@@ -138,6 +138,8 @@ def run(ctx):
         before = cache_probe()
         # a rejected update (valid, looser entries first) must leave table and alphabet as they are
         bad, reason = tablegen.invalid_update(rng, current=sf.get_semantic_constraints())
+        if type(bad) is dict:
+            bad = tablegen.as_caller_dict(bad, rng, p_plain=0.6)
         rj = call_guard(lambda: sf.set_semantic_constraints(bad))
         if rj[0] == "ok":
             ctx.finding("invalid-update-accepted", {"table": table, "update": repr(bad)}, reason)
